@@ -47,9 +47,14 @@ fn small(z: u8, m: &IBox) -> Option<SmallSet> {
 	}
 }
 
-fn same_set(z: u8, got: &TileBBox, want: &IBox, sig: &str, ctx: &str) -> Result<(), Fail> {
-	let g = denote(got, z, ctx)?;
-	ensure_prop!(g == *want, sig, "{ctx}: result {got:?} denotes {}, the set model gives {}", show(&g), show(want));
+/// `denote` with a context that is only formatted on failure
+fn den(b: &TileBBox, z: u8, ctx: impl Fn() -> String) -> Result<IBox, Fail> {
+	denote(b, z, "").map_err(|f| Fail::new(f.sig, format!("{}{}", ctx(), f.what)))
+}
+
+fn same_set(z: u8, got: &TileBBox, want: &IBox, sig: &str, ctx: impl Fn() -> String) -> Result<(), Fail> {
+	let g = den(got, z, &ctx)?;
+	ensure_prop!(g == *want, sig, "{}: result {got:?} denotes {}, the set model gives {}", ctx(), show(&g), show(want));
 	Ok(())
 }
 
@@ -157,12 +162,12 @@ fn unary_laws(z: u8, name: &str, b: &TileBBox, m: &IBox, p: &Probes, t: &mut Tal
 		}
 		let mut inc = b.clone();
 		inc.include_coord(x, y);
-		same_set(z, &inc, &want_inc, "box:include_coord-differs-from-set", &format!("{name}: {b:?}.include_coord({x},{y})"))?;
+		same_set(z, &inc, &want_inc, "box:include_coord-differs-from-set", || format!("{name}: {b:?}.include_coord({x},{y})"))?;
 		let mut inc3 = b.clone();
 		if let Err(e) = inc3.include_coord3(&c3) {
 			fail!("box:include_coord-differs-from-set", "{name}: {b:?}.include_coord3({c3:?}) failed: {e}");
 		}
-		same_set(z, &inc3, &want_inc, "box:include_coord-differs-from-set", &format!("{name}: {b:?}.include_coord3({c3:?})"))?;
+		same_set(z, &inc3, &want_inc, "box:include_coord-differs-from-set", || format!("{name}: {b:?}.include_coord3({c3:?})"))?;
 	}
 
 	// index -> coordinate
@@ -217,27 +222,28 @@ fn unary_laws(z: u8, name: &str, b: &TileBBox, m: &IBox, p: &Probes, t: &mut Tal
 		let mut by_cell: BTreeMap<(u32, u32), Vec<Rect>> = BTreeMap::new();
 		let mut acc = 0u64;
 		for part in &parts {
-			let ctx = format!("{name}: {b:?}.iter_bbox_grid({size}) part {part:?}");
-			let pm = denote(part, z, &ctx)?;
+			let ctx = || format!("{name}: {b:?}.iter_bbox_grid({size}) part {part:?}");
+			let pm = den(part, z, ctx)?;
 			let r = match pm {
 				Some(r) => r,
-				None => fail!("box:grid-part-empty", "{ctx} is empty"),
+				None => fail!("box:grid-part-empty", "{} is empty", ctx()),
 			};
-			ensure_prop!(bs::inter(&pm, m) == pm, "box:grid-part-outside-box", "{ctx} is not inside the box {}", show(m));
+			ensure_prop!(bs::inter(&pm, m) == pm, "box:grid-part-outside-box", "{} is not inside the box {}", ctx(), show(m));
 			ensure_prop!(
 				r.x0 / size == r.x1 / size && r.y0 / size == r.y1 / size,
 				"box:grid-part-crosses-cell",
-				"{ctx} does not lie within one aligned cell of edge {size}"
+				"{} does not lie within one aligned cell of edge {size}",
+				ctx()
 			);
 			let cell = by_cell.entry((r.x0 / size, r.y0 / size)).or_default();
 			for o in cell.iter() {
-				ensure_prop!(!bs::overlaps(&Some(*o), &pm), "box:grid-parts-overlap", "{ctx} overlaps the part {}", show(&Some(*o)));
+				ensure_prop!(!bs::overlaps(&Some(*o), &pm), "box:grid-parts-overlap", "{} overlaps the part {}", ctx(), show(&Some(*o)));
 			}
 			cell.push(r);
 			total += bs::count(&pm) as u128;
 			if set.is_some() {
 				let s = SmallSet::of(z, &pm);
-				ensure_prop!(acc & s.0 == 0, "box:grid-parts-overlap", "{ctx} overlaps an earlier part");
+				ensure_prop!(acc & s.0 == 0, "box:grid-parts-overlap", "{} overlaps an earlier part", ctx());
 				acc |= s.0;
 			}
 		}
@@ -260,18 +266,18 @@ fn unary_laws(z: u8, name: &str, b: &TileBBox, m: &IBox, p: &Probes, t: &mut Tal
 		}
 		let mut f = b.clone();
 		f.flip_y();
-		same_set(z, &f, &want, "box:flip_y-differs-from-set", &format!("{name}: {b:?}.flip_y()"))?;
+		same_set(z, &f, &want, "box:flip_y-differs-from-set", || format!("{name}: {b:?}.flip_y()"))?;
 		f.flip_y();
-		same_set(z, &f, m, "box:flip_y-not-involution", &format!("{name}: {b:?}.flip_y().flip_y()"))?;
+		same_set(z, &f, m, "box:flip_y-not-involution", || format!("{name}: {b:?}.flip_y().flip_y()"))?;
 		let want = bs::swap_xy(m);
 		if let Some(s) = set {
 			assert_eq!(s.map(z, |x, y| (y, x)), SmallSet::of(z, &want), "harness: swap vs explicit set");
 		}
 		let mut f = b.clone();
 		f.swap_xy();
-		same_set(z, &f, &want, "box:swap_xy-differs-from-set", &format!("{name}: {b:?}.swap_xy()"))?;
+		same_set(z, &f, &want, "box:swap_xy-differs-from-set", || format!("{name}: {b:?}.swap_xy()"))?;
 		f.swap_xy();
-		same_set(z, &f, m, "box:swap_xy-not-involution", &format!("{name}: {b:?}.swap_xy().swap_xy()"))?;
+		same_set(z, &f, m, "box:swap_xy-not-involution", || format!("{name}: {b:?}.swap_xy().swap_xy()"))?;
 	}
 
 	// add_border: widen, clamped to the level; empty stays empty
@@ -282,7 +288,7 @@ fn unary_laws(z: u8, name: &str, b: &TileBBox, m: &IBox, p: &Probes, t: &mut Tal
 		}
 		let mut w = b.clone();
 		w.add_border(am[0], am[1], am[2], am[3]);
-		same_set(z, &w, &want, "box:add_border-differs-from-set", &format!("{name}: {b:?}.add_border({},{},{},{})", am[0], am[1], am[2], am[3]))?;
+		same_set(z, &w, &want, "box:add_border-differs-from-set", || format!("{name}: {b:?}.add_border({},{},{},{})", am[0], am[1], am[2], am[3]))?;
 	}
 
 	// operations between levels are refused (documented)
@@ -316,7 +322,7 @@ fn binary_laws(z: u8, a: &TileBBox, ma: &IBox, b: &TileBBox, mb: &IBox) -> Resul
 	if let Err(e) = i.intersect_bbox(b) {
 		fail!("box:intersect-differs-from-set", "{a:?}.intersect_bbox({b:?}) failed: {e}");
 	}
-	same_set(z, &i, &want, "box:intersect-differs-from-set", &format!("{a:?}.intersect_bbox({b:?})"))?;
+	same_set(z, &i, &want, "box:intersect-differs-from-set", || format!("{a:?}.intersect_bbox({b:?})"))?;
 
 	let want_u = bs::bounding_union(ma, mb);
 	if let Some((sa, sb)) = sets {
@@ -326,7 +332,7 @@ fn binary_laws(z: u8, a: &TileBBox, ma: &IBox, b: &TileBBox, mb: &IBox) -> Resul
 	if let Err(e) = u.include_bbox(b) {
 		fail!("box:include_bbox-differs-from-set", "{a:?}.include_bbox({b:?}) failed: {e}");
 	}
-	same_set(z, &u, &want_u, "box:include_bbox-differs-from-set", &format!("{a:?}.include_bbox({b:?})"))?;
+	same_set(z, &u, &want_u, "box:include_bbox-differs-from-set", || format!("{a:?}.include_bbox({b:?})"))?;
 
 	let want_o = bs::overlaps(ma, mb);
 	if let Some((sa, sb)) = sets {
@@ -443,7 +449,7 @@ fn small_oracle(case: &SmallCase, obs: &mut Obs) -> Result<(), Fail> {
 }
 
 // =======================================================================================
-// phase: exhaustive, pairs of boxes (z <= 2 quick, z <= 3 thorough); one case = one row
+// phase: exhaustive, pairs of boxes (z <= 3); one case = one row
 // =======================================================================================
 
 #[derive(Clone, Debug, Serialize, Deserialize)]
@@ -618,9 +624,9 @@ fn geo_laws(g: &[f64; 4], zmin: u8, zmax: u8) -> Result<(), Fail> {
 	for z in 0..=31u8 {
 		let inside = zmin <= z && z <= zmax;
 		let want: IBox = if inside { Some(per_level[z as usize]) } else { None };
-		same_set(z, p.get_level_bbox(z), &want, "pyramid:from_geo_bbox-differs-from-per-level", &format!("from_geo_bbox({zmin}, {zmax}, {geo:?}) level {z}"))?;
-		same_set(z, q.get_level_bbox(z), &want, "pyramid:intersect_geo_bbox-differs-from-per-level", &format!("full({zmin}..={zmax}).intersect_geo_bbox({geo:?}) level {z}"))?;
-		same_set(z, f.get_level_bbox(z), &Some(per_level[z as usize]), "pyramid:intersect_geo_bbox-differs-from-per-level", &format!("full(0..=31).intersect_geo_bbox({geo:?}) level {z}"))?;
+		same_set(z, p.get_level_bbox(z), &want, "pyramid:from_geo_bbox-differs-from-per-level", || format!("from_geo_bbox({zmin}, {zmax}, {geo:?}) level {z}"))?;
+		same_set(z, q.get_level_bbox(z), &want, "pyramid:intersect_geo_bbox-differs-from-per-level", || format!("full({zmin}..={zmax}).intersect_geo_bbox({geo:?}) level {z}"))?;
+		same_set(z, f.get_level_bbox(z), &Some(per_level[z as usize]), "pyramid:intersect_geo_bbox-differs-from-per-level", || format!("full(0..=31).intersect_geo_bbox({geo:?}) level {z}"))?;
 	}
 	Ok(())
 }
@@ -991,9 +997,26 @@ fn pyr_op_strategy() -> impl Strategy<Value = PyrOp> {
 	]
 }
 
+/// related boxes of one level: the first goes into P, the second into Q
+fn level_pair_strategy() -> impl Strategy<Value = (u8, BoxSpec, BoxSpec)> {
+	level_strategy().prop_flat_map(|z| box_pair_strategy(z).prop_map(move |(a, b)| (z, a, b)))
+}
+
 fn pyr_case_strategy() -> impl Strategy<Value = PyrCase> {
-	(pyr_spec_strategy(), pyr_spec_strategy(), proptest::collection::vec(pyr_op_strategy(), 1..8), proptest::collection::vec(level_coord_strategy(), 0..4))
-		.prop_map(|(p, q, ops, probes)| PyrCase { p, q, ops, probes })
+	(
+		pyr_spec_strategy(),
+		pyr_spec_strategy(),
+		proptest::collection::vec(level_pair_strategy(), 0..5),
+		proptest::collection::vec(pyr_op_strategy(), 1..8),
+		proptest::collection::vec(level_coord_strategy(), 0..4),
+	)
+		.prop_map(|(mut p, mut q, pairs, ops, probes)| {
+			for (z, a, b) in pairs {
+				p.levels.push((z, a));
+				q.levels.push((z, b));
+			}
+			PyrCase { p, q, ops, probes }
+		})
 }
 
 type PyrModel = Vec<IBox>; // 32 levels
@@ -1015,7 +1038,7 @@ fn build_pyramid(spec: &PyrSpec) -> (TileBBoxPyramid, PyrModel) {
 
 fn pyramid_agrees(p: &TileBBoxPyramid, m: &PyrModel, case: &PyrCase, after: &str) -> Result<(), Fail> {
 	for z in 0..32u8 {
-		same_set(z, p.get_level_bbox(z), &m[z as usize], "pyramid:level-differs-from-per-level-set", &format!("after {after}: level {z}"))?;
+		same_set(z, p.get_level_bbox(z), &m[z as usize], "pyramid:level-differs-from-per-level-set", || format!("after {after}: level {z}"))?;
 	}
 	let nonempty: Vec<u8> = (0..32u8).filter(|z| m[*z as usize].is_some()).collect();
 	ensure_prop!(p.is_empty() == nonempty.is_empty(), "pyramid:is_empty-differs", "after {after}: is_empty() = {}, non-empty levels of the model: {nonempty:?}", p.is_empty());
@@ -1031,7 +1054,7 @@ fn pyramid_agrees(p: &TileBBoxPyramid, m: &PyrModel, case: &PyrCase, after: &str
 	let got_levels: Vec<u8> = levels.iter().map(|b| b.level).collect();
 	ensure_prop!(got_levels == nonempty, "pyramid:iter_levels-differs", "after {after}: iter_levels() yields levels {got_levels:?}, non-empty levels {nonempty:?}");
 	for b in levels {
-		same_set(b.level, b, &m[b.level as usize], "pyramid:iter_levels-differs", &format!("after {after}: iter_levels() item of level {}", b.level))?;
+		same_set(b.level, b, &m[b.level as usize], "pyramid:iter_levels-differs", || format!("after {after}: iter_levels() item of level {}", b.level))?;
 	}
 	// membership: generated probes + corners of every level of the model
 	let mut probes = case.probes.clone();
@@ -1224,7 +1247,7 @@ fn lat_strategy() -> impl Strategy<Value = f64> {
 
 fn geo_raw_strategy() -> impl Strategy<Value = GeoCase> {
 	let extent = prop_oneof![2 => Just(0.0f64), 1 => 0.0f64..=1e-6, 1 => 0.0f64..=1e-3];
-	(lon_strategy(), lon_strategy(), lat_strategy(), lat_strategy(), 0u8..=5, extent, 0u8..=31, 0u8..=31).prop_map(|(l1, l2, b1, b2, mode, ext, z1, z2)| {
+	(lon_strategy(), lon_strategy(), lat_strategy(), lat_strategy(), 0u8..=9, extent, 0u8..=31, 0u8..=31).prop_map(|(l1, l2, b1, b2, mode, ext, z1, z2)| {
 		let (mut w, mut e) = (l1.min(l2), l1.max(l2));
 		let (mut s, mut n) = (b1.min(b2), b1.max(b2));
 		match mode {
@@ -1266,7 +1289,7 @@ fn main() {
 	let mut check = Check::from_args(
 		"C15",
 		"exploration",
-		"exhaustive: every box of zoom 0..=3 incl. both empty encodings (unary laws with every coordinate, index, grid size 0..=10/255/256/257/2^31/u32::MAX, 257 border amounts), every ordered pair of boxes of one level (zoom <= 2 quick, <= 3 thorough; one case = one row A x all B, pairs counted in counters), against explicit coordinate sets; sampled: proptest boxes of zoom 0..=31 whose edges come from a pool of border-biased coordinates (0, 1, 2^z-2, 2^z-1, 256k, 256k+-1), pyramids built from such boxes with operation sequences, geographic boxes (random, on/next to tile edges, points/lines, beyond +-85.0511, world bounds, tile-aligned) against an interval model / a Mercator reference with tolerance band. A case is non-trivial when it involves an empty operand (either encoding or a derived empty result), a border coordinate (for geographic cases: an edge on a tile edge, on/after the Mercator limit or the world bound, zero or sub-guard extent, tile-aligned) or a partial overlap; distinct = distinct serialised cases",
+		"exhaustive: every box of zoom 0..=3 incl. both empty encodings (unary laws with every coordinate, index, grid size 0..=10/255/256/257/2^31/u32::MAX, 257 border amounts), every ordered pair of boxes of one level (zoom <= 3 in both tiers, 1.7 million pairs; one case = one row A x all B, pairs counted in counters), against explicit coordinate sets; sampled: proptest boxes of zoom 0..=31 whose edges come from a pool of border-biased coordinates (0, 1, 2^z-2, 2^z-1, 256k, 256k+-1), pyramids built from such boxes with operation sequences, geographic boxes (random, on/next to tile edges, points/lines, beyond +-85.0511, world bounds, tile-aligned) against an interval model / a Mercator reference with tolerance band. A case is non-trivial when it involves an empty operand (either encoding or a derived empty result), a border coordinate (for geographic cases: an edge on a tile edge, on/after the Mercator limit or the world bound, zero or sub-guard extent, tile-aligned) or a partial overlap; distinct = distinct serialised cases",
 	);
 	check.assume("the denotation of a TileBBox is read from its public fields level, x_min, y_min, x_max, y_max as documented (empty iff x_max < x_min or y_max < y_min)");
 	check.assume("geographic tolerance: model::georef::delta(z) = 2.5e-6 + 64 eps 2^z tiles around each mapped edge; tiles on the band are don't-care");
@@ -1282,7 +1305,7 @@ fn main() {
 	check.enumerate("regressions-pyramids", reg_pyr, false, pyr_oracle);
 
 	check.enumerate("exhaustive-boxes", small_cases(), true, small_oracle);
-	check.enumerate("exhaustive-pairs", pair_rows(check.cases(2, 3) as u8), true, pair_oracle);
+	check.enumerate("exhaustive-pairs", pair_rows(3), true, pair_oracle);
 	check.phase("sampled-boxes", check.cases(150_000, 4_000_000), box_case_strategy, box_oracle);
 	check.phase("pyramids", check.cases(60_000, 1_500_000), pyr_case_strategy, pyr_oracle);
 	check.enumerate("geo-special", geo_special_cases(), false, geo_oracle);
